@@ -389,7 +389,15 @@ class StmtMixin:
                 names.add(n.id)
             elif isinstance(n, ast.ExceptHandler) and n.name:
                 names.add(n.name)
+            elif isinstance(n, ast.Subscript) and isinstance(n.ctx, (ast.Store, ast.Del)) and isinstance(n.value, ast.Name):
+                names.add(n.value.id)          # x[i] = v / del x[i] on a local container (value semantics in the encoding)
+            elif (isinstance(n, ast.Call) and isinstance(n.func, ast.Attribute) and isinstance(n.func.value, ast.Name)
+                  and n.func.attr in self.MUTATORS):
+                names.add(n.func.value.id)     # x.append(v), x.add(v), ...: the local is rebound by the write-back
         return names
+
+    MUTATORS = {"append", "extend", "insert", "remove", "pop", "clear", "sort", "reverse", "add", "discard", "update", "difference_update",
+                "intersection_update", "symmetric_difference_update", "setdefault", "popitem", "appendleft", "popleft"}
 
     def discover_writes(self, stmts, st: State, extra_env=None):
         """discovery pass: run the body once from the current state with obligations off and
